@@ -1,4 +1,6 @@
 import LicenseExpr.Lemmas.BSound
+import LicenseExpr.Lemmas.BReject
+import LicenseExpr.Lemmas.WithReject
 import LicenseExpr.Model.Api
 /-!
 # C03 — malformed input is rejected with an ExpressionError that locates the fault
@@ -36,6 +38,77 @@ theorem C03_error_token (toks : List PTok) (e : BP.PErr) (i : Nat) (code : Nat) 
   cases hi : toks[i]? with
   | none => cases e <;> simp_all
   | some t => refine ⟨t, rfl, ?_⟩; cases e <;> simp_all <;> (obtain ⟨_, h2, h3⟩ := h; exact ⟨h2.symm, h3.symm⟩)
+
+/-- a token list the property calls well formed (as far as parentheses and neighbours go): not empty,
+    not starting with an operator, no forbidden adjacent pair (`BP.badPair`: two operands with no
+    operator between them — also across a parenthesis —, adjacent operators, an operator directly after
+    `(` or before `)`, `()`), every prefix closes at most what it opened, and all is closed at the end -/
+def WellFormedToks {α : Type} (ts : List (BP.Tok α)) : Prop :=
+  ts ≠ [] ∧ (∀ t rest, ts = t :: rest → BP.isOp t = false) ∧
+  (∀ pre a b post, ts = pre ++ a :: b :: post → BP.badPair a b = false) ∧
+  (∀ pre post, ts = pre ++ post → BP.closes pre ≤ BP.opens pre) ∧ BP.opens ts = BP.closes ts
+
+/-- **C03 (reject, tokens)**: a token list that is turned into an expression is well formed; so a list
+    with unbalanced or empty parentheses, two operands with no operator between them, adjacent or
+    leading operators, or an operator directly after `(` / before `)` never is. -/
+theorem C03_reject_tokens {α : Type} (ts : List (BP.Tok α)) (e : Expr α) (h : BP.parse ts = .ok e) :
+    WellFormedToks ts := by
+  refine ⟨?_, ?_, BP.parse_pairs ts e h, (BP.parse_balanced ts e h).1, (BP.parse_balanced ts e h).2⟩
+  · intro hnil; subst hnil; exact BP.parse_nonempty e h
+  · intro t rest hts; subst hts; exact BP.parse_first t rest e h
+
+/-- **C03 (reject, WITH)**: when the grouping stage lets a token list through, every `WITH` in it
+    stands directly between two license tokens (and has been folded into a pair with them). -/
+theorem C03_reject_with (c : Cls) (strict : Bool) (ts out : List STok) (h : groupWith c strict ts = .ok out)
+    (pre : List STok) (w : STok) (post : List STok) (hts : ts = pre ++ w :: post) (hw : isWithV w.val = true) :
+    (∃ pre' a l, pre = pre' ++ [a] ∧ symOf a.val = some l) ∧
+    (∃ b post' e, post = b :: post' ∧ symOf b.val = some e) :=
+  groupWith_with_between c strict ts out h pre w post hts hw
+
+/-- **C03 (reject, Licensing.parse)**: whenever `Licensing.parse` returns an expression — any table,
+    any flags, any text — the tokens it handed to the parser are well formed. -/
+theorem C03_reject (c : Cls) (T : Table) (simple strict validate : Bool) (text : Str) (e : Expr Atom)
+    (h : parseFull c T simple strict validate text = .ok e) :
+    ∃ toks, ltok c T simple strict text = .ok toks ∧ WellFormedToks (toks.map (·.t)) := by
+  unfold parseFull parseFullW at h
+  split at h
+  · simp at h
+  · cases hl : ltokW c T (buildTrie c T) simple strict text with
+    | error er => simp [hl] at h; cases er <;> simp [ofLErr] at h
+    | ok toks =>
+      refine ⟨toks, by simp [ltok, hl], ?_⟩
+      simp only [hl] at h
+      cases hp : BP.parseAt (toks.map (·.t)) with
+      | error x =>
+        obtain ⟨pe, idx⟩ := x
+        simp [hp] at h
+        cases pe <;> simp [ofPErr] at h <;> (split at h <;> simp at h)
+      | ok e' => exact C03_reject_tokens _ e' ((BP.parseAt_ok _ _).mp hp)
+
+/-- the contrapositive, as the property words it: a forbidden neighbour pair anywhere in the tokens
+    means no expression comes back -/
+theorem C03_bad_pair_rejected {α : Type} (pre : List (BP.Tok α)) (a b : BP.Tok α) (post : List (BP.Tok α))
+    (hbad : BP.badPair a b = true) (e : Expr α) : BP.parse (pre ++ a :: b :: post) ≠ .ok e := by
+  intro h
+  have := (C03_reject_tokens _ e h).2.2.1 pre a b post rfl
+  rw [hbad] at this; cases this
+
+/-- a closing parenthesis with nothing open, or an opening one never closed, means no expression -/
+theorem C03_unbalanced_rejected {α : Type} (ts : List (BP.Tok α)) (e : Expr α)
+    (hbad : (∃ pre post, ts = pre ++ post ∧ BP.opens pre < BP.closes pre) ∨ BP.opens ts ≠ BP.closes ts) :
+    BP.parse ts ≠ .ok e := by
+  intro h
+  have wf := C03_reject_tokens _ e h
+  rcases hbad with ⟨pre, post, hts, hlt⟩ | hne
+  · have := wf.2.2.2.1 pre post hts; omega
+  · exact hne wf.2.2.2.2
+
+/-- the hypotheses are satisfiable and the conclusion is not trivial: an accepted list is well formed,
+    and the listed malformed shapes are refused -/
+example : BP.parse [BP.Tok.sym 1, .and, .lpar, .sym 2, .or, .sym 3, .rpar] =
+    .ok (.node .and [.atom 1, .node .or [.atom 2, .atom 3]]) := by rfl
+example : BP.badPair (BP.Tok.sym 1) (BP.Tok.lpar : BP.Tok Nat) = true := rfl
+example : BP.badPair (BP.Tok.rpar : BP.Tok Nat) (BP.Tok.lpar) = true := rfl
 
 /-- non-vacuity and the three repaired faults: `()`, `a and (or b)`, `a or (b) c` are rejected with
     proper parse errors -/
